@@ -10,7 +10,7 @@
   (it stands for PYTHONHASHSEED and the memory layout), `wfCore` / `wfOps` the contract of `populate_interface`
   and of the `@rpc` declarations (evaluated by the harness on every real application).
 -/
-import Proofs.WsdlFinal
+import Proofs.WsdlUnique
 import SpyneModel.Generated.Facts07
 namespace SpyneModel.Props.C07
 open SpyneModel SpyneModel.Wsdl SpyneModel.Generated
@@ -53,29 +53,39 @@ theorem message_porttype_binding_refs_closed (e : Enum) (I : IState) (url : Stri
     (h : build facts07 e I url = .ok d) (hwf : (populated I).wfCore = true) :
     (∀ q ∈ d.msgRefs, d.msgDefined q = true) ∧ (∀ q ∈ d.portTypeRefs, d.portTypeDefined q = true) ∧
     (∀ q ∈ d.bindingRefs, d.bindingDefined q = true) :=
-  wsdl_refs_closed_general facts07 (by decide) e (populated I) url d h (faults_in_tns I hwf)
+  wsdl_refs_closed_general facts07 (by decide) (by decide) e (populated I) url d h (faults_in_tns I hwf)
 
 /-- every `type=`, `base=` (embedded schemas) and `element=` (message parts) resolves to a definition in the
     document or to an XSD builtin, and is written with a prefix declared on the root element -/
 theorem schema_refs_closed (e : Enum) (he : e.Valid) (I : IState) (url : String) (d : Doc)
     (h : build facts07 e I url = .ok d) (hwf : (populated I).wfCore = true) :
     (∀ q ∈ d.typeRefs, d.typeDefined q = true) ∧ (∀ q ∈ d.elemRefs, d.elemDefined q = true) :=
-  schema_refs_closed_general facts07 e he (populated I) url d h (faults_in_tns I hwf)
+  schema_refs_closed_general facts07 (by decide) e he (populated I) url d h (faults_in_tns I hwf)
 
 /-- every `soap:header/@part` (input and output, one or several headers) names a part of the message that
     `soap:header/@message` names -/
 theorem header_parts_resolve (e : Enum) (I : IState) (url : String) (d : Doc)
     (h : build facts07 e I url = .ok d) (hwf : (populated I).wfCore = true) :
     ∀ bh ∈ d.headerRefs, d.headerPartOk bh = true :=
-  header_parts_general facts07 e (populated I) url d h (faults_in_tns I hwf)
+  header_parts_general facts07 (by decide) e (populated I) url d h (faults_in_tns I hwf)
+
+/-- **no definition occurs twice**: one `wsdl:message` per name although services share header and fault classes
+    (the set of emitted names lives as long as the document), one portType / binding / service per name, distinct
+    port names in a service, one schema per namespace, one type / element per name in it -/
+theorem definitions_unique (e : Enum) (he : e.Valid) (I : IState) (url : String) (d : Doc)
+    (h : build facts07 e I url = .ok d) (hwf : (populated I).wfCore = true) (hops : (populated I).wfOps = true) :
+    d.wellDefined = true :=
+  definitions_unique_general facts07 (by decide) e he (populated I) url d h (faults_in_tns I hwf) hops
 
 /-- **the document is closed**: every QName reference (type, base, element, message incl. wsdl:fault and
-    soap:header, header part, binding, port) resolves -/
+    soap:header, header part, binding, port) resolves, and to exactly one definition -/
 theorem wsdl_closed (e : Enum) (he : e.Valid) (I : IState) (url : String) (d : Doc)
-    (h : build facts07 e I url = .ok d) (hwf : (populated I).wfCore = true) : d.closed = true := by
+    (h : build facts07 e I url = .ok d) (hwf : (populated I).wfCore = true) (hops : (populated I).wfOps = true) :
+    d.closed = true ∧ d.wellDefined = true := by
   obtain ⟨h1, h2, h3⟩ := message_porttype_binding_refs_closed e I url d h hwf
   obtain ⟨h4, h5⟩ := schema_refs_closed e he I url d h hwf
   have h6 := header_parts_resolve e I url d h hwf
+  refine ⟨?_, definitions_unique e he I url d h hwf hops⟩
   simp only [Doc.closed, Bool.and_eq_true, List.all_eq_true]
   exact ⟨⟨⟨⟨⟨h4, h5⟩, h1⟩, h2⟩, h3⟩, h6⟩
 
@@ -83,7 +93,7 @@ theorem wsdl_closed (e : Enum) (he : e.Valid) (I : IState) (url : String) (d : D
 theorem prefixes_injective (e : Enum) (I : IState) (url : String) (d : Doc)
     (h : build facts07 e I url = .ok d) (hwf : (populated I).wfCore = true) (ns₁ ns₂ : String) (pf : Pref)
     (h₁ : d.prefmap.lookup ns₁ = some pf) (h₂ : d.prefmap.lookup ns₂ = some pf) : ns₁ = ns₂ := by
-  obtain ⟨schemas, tr, _, rfl⟩ := gen_ok facts07 e (populated I) url d h
+  obtain ⟨schemas, tr, _, rfl⟩ := gen_ok facts07 (by decide) e (populated I) url d h
   have hw := wf_unpack (populated I) (faults_in_tns I hwf)
   exact prefix_injective _ (touchAll_inv _ (touchAll_inv _ (init_inv (populated I) hw.prefNodup hw.tnsFresh hw.tnsPref) _) _)
     ns₁ ns₂ pf h₁ h₂
@@ -103,7 +113,7 @@ theorem ops_exactly_once (e : Enum) (I₀ : IState) (url : String) (d : Doc) (h 
         o.faults.map (·.name) = m.faults.map (fun f => ((populated I₀).cls f).tn) ∧
         bo.faults = m.faults.map (fun f => ((populated I₀).cls f).tn) := by
   obtain ⟨h1, h2, pt, hpt, b, hb, _, hty, ho, hbo⟩ :=
-    ops_exactly_once_general facts07 (by decide) e (populated I₀) url d h hw s hs m hm
+    ops_exactly_once_general facts07 (by decide) (by decide) e (populated I₀) url d h hw s hs m hm
   refine ⟨h1, h2, pt, hpt, b, hb, hty, mkOp (populated I₀) m, ho, mkBOp facts07 (populated I₀) m, hbo, rfl, rfl, rfl, rfl, rfl, rfl, rfl, ?_, rfl⟩
   simp [mkOp, List.map_map, Function.comp]
 
@@ -180,6 +190,16 @@ theorem fault_namespace_witness :
     (match build { facts07 with faultNs := .keptDeclared } Enum.id exF "u" with
       | .ok d => d.closed | _ => true) = false := by decide +kernel
 
+/-- `exI` split into two services (one port type each) that share the header class `H` -/
+def exM : IState :=
+  { exI with services := [⟨"S", ["P1"], [⟨"f", "f", 10, 11, (some [1]), none, [2], (some "P1")⟩]⟩,
+                          ⟨"S2", ["P2"], [⟨"g", "g", 12, 13, (some [1]), none, [], (some "P2")⟩]⟩] }
+
+/-- with a fresh set of emitted message names per service, a shared header yields two `wsdl:message name="H"` -/
+theorem message_dedup_witness :
+    (match build { facts07 with messageDedup := .perService } Enum.id exM "u" with
+      | .ok d => d.wellDefined | _ => true) = false := by decide +kernel
+
 /-! ### non-vacuity: the hypotheses hold for a concrete application (2 port types, header in a foreign namespace,
     inheritance across namespaces, array, attribute, restricted simple type, fault, bare method) -/
 
@@ -192,6 +212,9 @@ example : (populated exF).wfCore = true ∧ (exF.cls 2).ns = "urn:c07:faultlib" 
 example : (match build facts07 Enum.id exF "u" with | .ok d => d.closed && !d.headerRefs.isEmpty | _ => false) = true := by
   decide +kernel
 example : (populated exT).wfCore = true ∧ exT.wfOps = true := by decide +kernel
+example : (populated exM).wfCore = true ∧ (populated exM).wfOps = true := by decide +kernel
+example : (match build facts07 Enum.id exM "u" with | .ok d => d.closed && d.wellDefined && d.messages.length == 6 | _ => false) = true := by
+  decide +kernel
 example : Enum.rev.Valid := Enum.rev_valid
 example : exI.deps ≠ [] := by decide
 
